@@ -1,7 +1,10 @@
 ------------------------- MODULE NeedleLayoutTrace -------------------------
 (* Judge for C02.  One execution = one volume data file: reset {v, start}, then
-   put (Needle.Append), alter (one byte of the file XOR mask), get
-   (Needle.ReadData of the i-th record), scan (ScanVolumeFileFrom).
+   put (Needle.Append), req (an upload request -> CreateNeedleFromRequest -> Append), alter (one byte
+   of the file XOR mask), get (the i-th record read back: via "data" Needle.ReadData, "blob"
+   ReadNeedleBlob + ReadBytes, "hdrbody" ReadNeedleHeader + ReadNeedleBody - the last one does not
+   compare checksums), copy (the i-th record copied raw to the end of the file: ReadNeedleBlob +
+   WriteNeedleBlob, by the needle package or by a real Volume), scan (ScanVolumeFileFrom / ScanVolumeFile).
 
    Variable-length fields travel as [n = length, h = content token, b = bytes
    (omitted for big records: full = FALSE)]; equality of contents is equality
@@ -21,20 +24,41 @@ TraceInit == ver = 3 /\ start = 0 /\ file = <<>> /\ recs = <<>> /\ hist = <<>> /
 TraceReset == IsReset /\ ver' = Ev.v /\ start' = Ev.start /\ recs' = <<>> /\ UNCHANGED <<file, hist>>
 TraceSkip == SkipStep /\ UNCHANGED vars
 
+(* what Append must do with the blob e (fields as in a put line) given what it returned and the file holds *)
+PutOk(e, r) ==
+  LET size == SizeOf(ver, e.flags, e.data.n, e.name.n, e.mime.n, e.pairs.n)
+      n == RecLen(size, ver)
+  IN /\ InStatement(e)
+     /\ ~r.err
+     /\ r.off = End /\ r.end = End + n /\ r.rawlen = n                       \* appended at the end, 8-aligned length
+     /\ (ver # 1 => r.actual = n)                                          \* (v1 reports header + data only)
+     /\ r.size = e.data.n /\ r.nsize = size
+     /\ r.hdr = e.cookie \o e.id \o U32(size)
+     /\ (e.full => /\ Len(e.data.b) = e.data.n /\ Len(e.name.b) = e.name.n /\ Len(e.mime.b) = e.mime.n /\ Len(e.pairs.b) = e.pairs.n
+                   /\ MatchRaw(r.raw, EvBytes(e), ver))
+     /\ (Has(r, "crcw") => r.cks = r.crcw)       \* the stored checksum is a function of the data alone (CRCwriter fed in pieces)
+     /\ (Has(r, "etag") => \A j \in 1..Len(recs) :                         \* and so is the checksum tag
+            (recs[j].etag # "" /\ recs[j].b.data = F(e.data)) => recs[j].etag = r.etag)
+NewRec(e, r) == [off |-> End, len |-> r.rawlen, size |-> r.nsize, b |-> EvBlob(e), altd |-> {}, bad |-> FALSE,
+                 etag |-> IF Has(r, "etag") THEN r.etag ELSE ""]
 TPut ==
-  /\ IsEvent("put") /\ Strict /\ InStatement(Ev)
-  /\ LET e == Ev
-         r == Ev.res
-         size == SizeOf(ver, e.flags, e.data.n, e.name.n, e.mime.n, e.pairs.n)
-         n == RecLen(size, ver)
-     IN /\ ~r.err
-        /\ r.off = End /\ r.end = End + n /\ r.rawlen = n                       \* appended at the end, 8-aligned length
-        /\ (ver # 1 => r.actual = n)                                          \* (v1 reports header + data only)
-        /\ r.size = e.data.n /\ r.nsize = size
-        /\ r.hdr = e.cookie \o e.id \o U32(size)
-        /\ (e.full => /\ Len(e.data.b) = e.data.n /\ Len(e.name.b) = e.name.n /\ Len(e.mime.b) = e.mime.n /\ Len(e.pairs.b) = e.pairs.n
-                      /\ MatchRaw(r.raw, EvBytes(e), ver))
-        /\ recs' = Append(recs, [off |-> End, len |-> n, size |-> size, b |-> EvBlob(e), altd |-> {}, bad |-> FALSE])
+  /\ IsEvent("put") /\ Strict
+  /\ PutOk(Ev, Ev.res)
+  /\ recs' = Append(recs, NewRec(Ev, Ev.res))
+  /\ UNCHANGED <<ver, start, file, hist>>
+
+(* an upload request: the needle built from it is related to the request (ReqRel), and is then appended like any blob *)
+TReq ==
+  /\ IsEvent("req") /\ Strict
+  /\ ~Ev.res.err
+  /\ LET nd == Ev.res.needle
+         e == [cookie |-> nd.cookie, id |-> nd.id, flags |-> nd.flags, data |-> nd.data, name |-> nd.name, mime |-> nd.mime,
+               lm |-> SubSeq(nd.lm, 4, 8), ttl |-> nd.ttl, pairs |-> nd.pairs, ts |-> Ev.ats, full |-> nd.full]
+     IN /\ ReqRel(Ev, nd, [ok |-> Ev.res.pmapok, m |-> Ev.res.pmap])
+        /\ nd.ts = Ev.ats
+        /\ PutOk(e, Ev.res.put)
+        /\ nd.etag = Ev.res.put.etag
+        /\ recs' = Append(recs, NewRec(e, Ev.res.put))
   /\ UNCHANGED <<ver, start, file, hist>>
 
 (* one byte of the file was XORed with mask (1..255) at absolute offset res.at *)
@@ -67,15 +91,35 @@ DropsMeta(r, b) ==
   /\ (ver = 3 => r.ts = b.ts)
 Span(S) == (CHOOSE x \in S : \A y \in S : y <= x) - (CHOOSE x \in S : \A y \in S : y >= x) + 1
 
+EtagOk(r, rc) == (rc.etag # "" /\ Has(r, "etag")) => r.etag = rc.etag          \* the checksum tag of the blob as it was written
+(* what a read of an intact record must return: the blob, or (named deviation) an empty blob stripped of its metadata *)
+ReadsBack(r, size, b) ==
+  \/ Strict /\ r.size = size /\ SameBlob(r, b)
+  \/ Deviate("C02-empty-data-drops-meta") /\ r.size = size /\ DropsMeta(r, b)
 TGet ==
   /\ IsEvent("get") /\ Ev.i \in 1..Len(recs)
   /\ LET rc == recs[Ev.i]
          r == Ev.res
+         via == IF Has(Ev, "via") THEN Ev.via ELSE "data"
      IN IF rc.bad THEN Strict
-        ELSE IF rc.altd # {} THEN Strict /\ (Span(rc.altd) <= 4 => r.err)          \* altered data must be reported
-        ELSE \/ Strict /\ ~r.err /\ r.size = rc.size /\ SameBlob(r, rc.b)
-             \/ Deviate("C02-empty-data-drops-meta") /\ ~r.err /\ r.size = rc.size /\ DropsMeta(r, rc.b)
+        ELSE IF rc.altd # {} THEN Strict /\ ((via # "hdrbody" /\ Span(rc.altd) <= 4) => r.err)   \* altered data must be reported
+        ELSE ~r.err /\ EtagOk(r, rc) /\ ReadsBack(r, rc.size, rc.b)
   /\ UNCHANGED vars
+
+(* record i copied raw to the end of the file (the way volume tail / backup / replication move records): the copy is the
+   same bytes - version 3 stamps the copy's own append time into it -, sits at the 8-aligned end, and reads back as the blob *)
+TCopy ==
+  /\ IsEvent("copy") /\ Ev.i \in 1..Len(recs)
+  /\ LET rc == recs[Ev.i]
+         r == Ev.res
+         nb == IF ver = 3 THEN [rc.b EXCEPT !.ts = IF Ev.via = "needle" THEN Ev.ts ELSE r.got.ts] ELSE rc.b
+     IN /\ ~r.err
+        /\ r.off = End /\ r.end = End + rc.len
+        /\ r.sraw = r.draw
+        /\ IF rc.bad \/ rc.altd # {} THEN Strict
+           ELSE ~r.goterr /\ EtagOk(r.got, rc) /\ ReadsBack(r.got, rc.size, nb)
+        /\ recs' = Append(recs, [rc EXCEPT !.off = End, !.b = nb, !.altd = {a - rc.off + End : a \in rc.altd}])
+  /\ UNCHANGED <<ver, start, file, hist>>
 
 TScan ==
   /\ IsEvent("scan")
@@ -93,6 +137,6 @@ TScan ==
                         /\ \A j \in 1..Len(recs) : intact(j) => (SameBlob(r.recs[j], recs[j].b) \/ DropsMeta(r.recs[j], recs[j].b))
   /\ UNCHANGED vars
 
-TraceNext == TraceReset \/ TraceSkip \/ TPut \/ TAlter \/ TGet \/ TScan
+TraceNext == TraceReset \/ TraceSkip \/ TPut \/ TReq \/ TAlter \/ TGet \/ TCopy \/ TScan
 TraceSpec == TraceInit /\ [][TraceNext]_tvars
 =============================================================================
